@@ -178,7 +178,12 @@ def _mk_mortar(dim, n, sides):
     sg = {MortarSides.LEFT_SIDE: _mk_grid(dim, n)}
     if sides == 2:
         sg[MortarSides.RIGHT_SIDE] = _mk_grid(dim, n)
-    return pp.MortarGrid(dim, sg, codim=1)
+    mg = pp.MortarGrid(dim, sg, codim=1)
+    # the synthetic mortar grid has no projections to its neighbours; repr() (used in error messages) needs their shapes
+    import scipy.sparse as sps
+    mg._mortar_to_secondary_int = sps.csc_matrix((1, mg.num_cells))
+    mg._mortar_to_primary_int = sps.csc_matrix((1, mg.num_cells))
+    return mg
 
 
 def _exact_inverse(A):
@@ -264,6 +269,7 @@ class World:
             self.foreign[key] = _mk_grid(1, 2)
         return self.foreign[key]
 
+
     def eq_arg(self, step):
         def ident(k, style):
             return self.ops[k] if style == "op" and k < len(self.ops) else f"e{k}"
@@ -274,12 +280,13 @@ class World:
     def var_arg(self, step):
         out = []
         for name, grids, style in step["vars"]:
-            if style == "str" or (name, None) == (name, grids) and style != "md":
+            if style == "str":
                 out.append(f"v{name}")
             elif style == "md":
                 out.append(self.es.md_variable(f"v{name}", None if grids is None else [self.grid(g) for g in grids]))
             else:
-                out += [self.atom[(name, g)] for g in grids]
+                gl = grids if grids is not None else [g for (n, g) in self.atom if n == name]
+                out += [self.atom[(name, g)] for g in gl]
         return out
 
     def inverter(self, kind):
@@ -295,7 +302,18 @@ class World:
 
     def full(self):
         J, r = self.es.assemble()
-        return J.toarray(), r
+        return J.toarray(), np.asarray(r)
+
+    def split(self, step):
+        with warnings.catch_warnings():
+            warnings.simplefilter("ignore")
+            S, rhs = self.es.assemble_schur_complement_system(self.eq_arg(step), self.var_arg(step), inverter=self.inverter(step["inverter"]))
+        return (S.toarray() if hasattr(S, "toarray") else np.asarray(S)), np.asarray(rhs)
+
+    def expand(self, x):
+        with warnings.catch_warnings():
+            warnings.simplefilter("ignore")
+            return np.asarray(self.es.expand_schur_complement_solution(x))
 
     def stored_cols(self):
         """primary / secondary column indices read off the stored prolongation matrices."""
@@ -304,61 +322,62 @@ class World:
             P = P.tocoo()
             trip = sorted(zip(P.col.tolist(), P.row.tolist(), P.data.tolist()))
             if [t[0] for t in trip] != list(range(P.shape[1])) or any(t[2] != 1.0 for t in trip):
-                return None
+                return ["not-a-selection", "not-a-selection"]
             out.append([int(t[1]) for t in trip])
         return out
 
 
 def _cond(M):
     M = np.asarray(M, dtype=float)
-    if M.shape[0] != M.shape[1] or M.shape[0] == 0 or not np.all(np.isfinite(M)):
+    if M.ndim != 2 or M.shape[0] != M.shape[1] or not np.all(np.isfinite(M)):
         return float("inf")
+    if M.shape[0] == 0:
+        return 1.0
     with warnings.catch_warnings():
         warnings.simplefilter("ignore")
-        return float(np.linalg.cond(M))
+        try:
+            return float(np.linalg.cond(M))
+        except np.linalg.LinAlgError:
+            return float("inf")
 
 
 CAUGHT = (ValueError, KeyError, AssertionError, IndexError, TypeError, np.linalg.LinAlgError, ZeroDivisionError)
 
 
-def _run_steps(case):
+def impl_run(case):
     """The history on the real code; canonical answer per step."""
     w = World(case)
     es = w.es
     out = []
     last = None  # (S, rhs) of the last successful assembly
+    condJ = float("inf")
     for step in case["steps"]:
         kind = step["op"]
         if kind == "state":
             w.set_state(step["x"])
             J, r = w.full()
-            out.append({"J": [[frac(v) for v in row] for row in J], "r": [frac(v) for v in r], "_cond": _cond(J)})
+            condJ = _cond(J)
+            out.append({"J": [[frac(v) for v in row] for row in J], "r": [frac(v) for v in r]})
         elif kind == "split":
             try:
-                with warnings.catch_warnings():
-                    warnings.simplefilter("ignore")
-                    S, rhs = es.assemble_schur_complement_system(w.eq_arg(step), w.var_arg(step), inverter=w.inverter(step["inverter"]))
+                S, rhs = w.split(step)
             except CAUGHT as e:
                 out.append(err_kind(e))
                 continue
-            S = S.toarray() if hasattr(S, "toarray") else np.asarray(S)
+            eqidx = [[int(n[1:]), [int(i) for i in idx]] for n, idx in es.assembled_equation_indices.items()]
             inv, bs, Asp = es._Schur_complement[:3]
             cols = w.stored_cols()
-            Jf, _ = w.full()
-            # assemble() inside overwrote the public attribute; read it from the Schur call by re-assembling
-            # is not possible without side effects, so it was captured right after the call (see below)
-            last = (S, np.asarray(rhs))
-            ans = {"S": [[float(v) for v in row] for row in S], "rhs": [float(v) for v in rhs],
-                   "bs": [frac(v) for v in bs], "Asp": [[frac(v) for v in row] for row in Asp.toarray()],
-                   "pcols": cols[0] if cols else "not-a-selection", "scols": cols[1] if cols else "not-a-selection",
-                   "eqidx": step.get("_eqidx"),
-                   "_cond": max(_cond(S) if S.shape[0] == S.shape[1] else 1.0, _cond(np.linalg.pinv(inv.toarray())) if inv.shape[0] else 1.0, _cond(Jf))}
-            out.append(ans)
+            last = (S, rhs)
+            cS = _cond(S) if S.shape[0] == S.shape[1] else 1.0
+            out.append({"S": [[float(v) for v in row] for row in S], "rhs": [float(v) for v in rhs],
+                        "bs": [frac(v) for v in bs], "Asp": [[frac(v) for v in row] for row in Asp.toarray()],
+                        "pcols": cols[0], "scols": cols[1], "eqidx": eqidx,
+                        "_cond": max(cS, _cond(inv.toarray()), condJ)})
         else:
             try:
                 if step.get("solve"):
                     if last is None:
-                        x = np.zeros(0)
+                        x = np.zeros(1)
                     else:
                         S, rhs = last
                         if S.shape[0] != S.shape[1]:
@@ -367,10 +386,482 @@ def _run_steps(case):
                         x = np.linalg.solve(S, rhs)
                 else:
                     x = np.array([float(Fraction(v)) for v in step["x"]])
-                with warnings.catch_warnings():
-                    warnings.simplefilter("ignore")
-                    X = es.expand_schur_complement_solution(x)
-                out.append({"X": [float(v) for v in X]})
+                out.append({"X": [float(v) for v in w.expand(x)]})
             except CAUGHT as e:
                 out.append(err_kind(e))
     return out
+
+
+# ----------------------------------------------------------------------------- model side
+def model_ops(case):
+    lay = Layout(case)
+    ops = [{"op": "layout", "eqs": [[[g, s] for g, s in blocks] for blocks in lay.eqs], "vars": [list(v) for v in lay.vars]}]
+    for step in case["steps"]:
+        if step["op"] == "state":
+            J, r = closed_form(case, lay, step["x"])
+            ops.append({"op": "state", "J": [[frac(v) for v in row] for row in J], "r": [frac(v) for v in r]})
+        elif step["op"] == "split":
+            if step["form"] == "list":
+                eqs = [k for k, _ in step["eqs"]]
+            else:
+                eqs = [[k, list(grids)] for k, grids, _ in step["eqs"]]
+            ops.append({"op": "split", "form": step["form"], "eqs": eqs, "vars": [[n, g] for n, g, _ in step["vars"]]})
+        else:
+            ops.append({k: v for k, v in step.items() if k in ("op", "x", "solve")})
+    return ops
+
+
+def model_decode(outs, case):
+    lay = Layout(case)
+    res = []
+    for step, o in zip(case["steps"], outs[1:]):
+        if step["op"] == "state" and o == "ok":
+            J, r = closed_form(case, lay, step["x"])
+            o = {"J": [[frac(v) for v in row] for row in J], "r": [frac(v) for v in r]}
+        res.append(o)
+    return res
+
+
+def compare(impl, model, case):
+    if isinstance(impl, dict) and "harness_exc" in impl:
+        return f"impl_run raised {impl['harness_exc']}\n{impl.get('tb', '')}"
+    if len(impl) != len(model):
+        return f"{len(impl)} impl answers vs {len(model)} model answers"
+    dead = False   # stored Schur data of the model is unusable (singular secondary block)
+    loose = False  # ill-conditioned: values that went through an inverse are not compared
+    for i, (step, a, m) in enumerate(zip(case["steps"], impl, model)):
+        tag = f"step[{i}:{step['op']}]"
+        if isinstance(m, dict) and str(m.get("err", "")).startswith("bad-op"):
+            return f"{tag}: driver rejected the op: {m}"
+        if step["op"] == "state":
+            d = deep_compare(a, m, tag)
+            if d:
+                return "closed-form system differs from assemble(): " + d
+        elif step["op"] == "split":
+            if "err" in m or "err" in a:
+                if m.get("singular"):
+                    continue  # a failing call leaves the stored data unchanged in the code; the model lost it
+                if a != m:
+                    return f"{tag}: impl {a if 'err' in a else 'ok'} vs model {m if 'err' in m else 'ok'}"
+                continue
+            if m.get("singular"):
+                dead = True
+                continue
+            dead = False
+            loose = not (a["_cond"] < COND_MAX)
+            for key in ("bs", "Asp", "pcols", "scols"):
+                d = deep_compare(a[key], m[key], f"{tag}.{key}")
+                if d:
+                    return d
+            if a["eqidx"] != m["eqidx"] and a["eqidx"] != m["eqidx_asis"]:
+                return f"{tag}.eqidx: impl {a['eqidx']} vs model primary-block {m['eqidx']} / as coded {m['eqidx_asis']}"
+            if not loose:
+                for key in ("S", "rhs"):
+                    d = deep_compare(a[key], m[key], f"{tag}.{key}", tol=TOL)
+                    if d:
+                        return d
+        else:
+            if dead or "skip" in a or "skip" in m:
+                continue
+            if "err" in a or "err" in m:
+                if a != m:
+                    return f"{tag}: impl {a} vs model {m}"
+                continue
+            if m.get("full_ok") is False:
+                return f"{tag}: the model's expanded solution does not solve the full system exactly"
+            if not loose:
+                d = deep_compare(a["X"], m["X"], f"{tag}.X", tol=TOL)
+                if d:
+                    return d
+    return None
+
+
+# ----------------------------------------------------------------------------- oracle: the statement on the real code
+def classify(case, lay, step):
+    """Set-based reading of a split request, written independently of the Lean model.
+    Returns (expected, prow_set, srow_set, pcol_list, scol_set) with expected in
+    ValueError | AssertionError | dup | square."""
+    neq = len(case["eqs"])
+    units = set()
+    requested = set()
+    if step["form"] == "list":
+        for k, _ in step["eqs"]:
+            if k >= neq:
+                return ("ValueError",)
+            requested.add(k)
+            units |= {(k, g) for g in case["eqs"][k]["grids"]}
+    else:
+        for k, grids, _ in step["eqs"]:
+            if k >= neq or any(g not in case["eqs"][k]["grids"] for g in grids):
+                return ("ValueError",)
+            requested.add(k)
+            units |= {(k, g) for g in grids}
+    prows = set()
+    for (k, g) in units:
+        prows |= set(range(lay.roff[(k, g)], lay.roff[(k, g)] + lay.cells[g]))
+    srows = set(range(lay.nrows)) - prows
+    pcols = []
+    for name, grids, _ in step["vars"]:
+        for g in lay.var_grids.get(name, []):
+            if grids is None or g in grids:
+                pcols += list(range(lay.voff[(name, g)], lay.voff[(name, g)] + lay.cells[g]))
+    scols = set(range(lay.ndof)) - set(pcols)
+    if not requested or not pcols or not scols:
+        return ("AssertionError",)
+    if step["form"] == "list" and len(requested) == neq:
+        return ("ValueError",)  # no secondary row block at all: sps.vstack([]) (documented as AssertionError)
+    if len(srows) != len(scols):
+        return ("AssertionError",)
+    if len(set(pcols)) != len(pcols):
+        return ("dup", prows, srows, pcols, scols)
+    return ("square", prows, srows, pcols, scols)
+
+
+def _allclose(a, b, tol=1e-8):
+    a, b = np.asarray(a, float), np.asarray(b, float)
+    return a.shape == b.shape and bool(np.all(np.isfinite(a))) and bool(np.all(np.abs(a - b) <= tol * (1 + np.abs(b))))
+
+
+def oracle(case):
+    w = World(case)
+    lay = Layout(case)
+    J = r = None
+    stored = None      # (srows, pcols, scols, J, r, reliable) of the last successful assembly on the real code
+    for i, step in enumerate(case["steps"]):
+        kind = step["op"]
+        if kind == "state":
+            w.set_state(step["x"])
+            J, r = w.full()
+        elif kind == "split":
+            cls = classify(case, lay, step)
+            inv = step["inverter"]
+            singular = False
+            if cls[0] == "square":
+                sr, sc = sorted(cls[2]), sorted(cls[4])
+                singular = _frac_inverse([[Fraction(float(J[a, b])) for b in sc] for a in sr]) is None
+            got = None
+            try:
+                S, rhs = w.split(step)
+            except CAUGHT as e:
+                got = type(e).__name__
+            if cls[0] in ("ValueError", "AssertionError"):
+                if got != cls[0]:
+                    return {"what": f"step {i}: inadmissible split ({step.get('kind')}) should raise {cls[0]}, got {got or 'no error'}",
+                            "key": f"inadmissible-{cls[0]}-got-{got or 'none'}"}
+                continue
+            if singular:
+                if got is None:
+                    stored = (sorted(cls[2]), cls[3], sorted(cls[4]), J, r, False)
+                continue
+            if got is not None:
+                return {"what": f"step {i}: admissible split ({step.get('kind')}, {inv} inverter, square invertible secondary block) raised {got}",
+                        "key": f"admissible-split-raises-{got}-{inv}"}
+            reliable = cls[0] == "square"
+            stored = (sorted(cls[2]), cls[3], sorted(cls[4]), J, r, reliable)
+            if not reliable:
+                continue
+            if S.shape != (len(cls[3]), len(cls[3])) or rhs.shape != (len(cls[3]),):
+                return {"what": f"step {i}: reduced system has shape {S.shape}, expected {len(cls[3])} primary unknowns", "key": f"reduced-shape-{inv}"}
+            if max(_cond(J), _cond(S), _cond(J[np.ix_(sorted(cls[2]), sorted(cls[4]))])) >= COND_MAX:
+                continue
+            X = w.expand(np.linalg.solve(S, rhs))
+            Xf = np.linalg.solve(J, r)
+            if not _allclose(X, Xf):
+                return {"what": f"step {i}: expanded Schur solution ({step.get('kind')}, {inv} inverter) differs from the full solve by "
+                                f"{float(np.max(np.abs(X - Xf))):.3g}", "key": f"expanded-differs-from-full-solve-{inv}"}
+        else:
+            if step.get("solve"):
+                continue  # checked right after every admissible split above
+            x = np.array([float(Fraction(v)) for v in step["x"]])
+            got = None
+            try:
+                X = w.expand(x)
+            except CAUGHT as e:
+                got = type(e).__name__
+            if stored is None or len(x) != len(stored[1]):
+                if got != "ValueError":
+                    return {"what": f"step {i}: expand {'before any assembly' if stored is None else 'of a wrong-size vector'} should raise ValueError, got {got or 'no error'}",
+                            "key": f"expand-inadmissible-got-{got or 'none'}"}
+                continue
+            srows, pcols, scols, Js, rs, reliable = stored
+            if got is not None:
+                return {"what": f"step {i}: expand of a vector of the right size raised {got}", "key": f"expand-raises-{got}"}
+            if not reliable:
+                continue
+            if X.shape != (lay.ndof,) or [float(v) for v in X[sorted(pcols)]] != [float(v) for v in x]:
+                return {"what": f"step {i}: expand does not put x_p at the primary dofs", "key": "expand-misplaces-primary"}
+            if _cond(Js[np.ix_(srows, scols)]) < COND_MAX and not _allclose(Js[srows] @ X, rs[srows]):
+                return {"what": f"step {i}: expanded vector violates the secondary rows of the full system", "key": "expand-violates-secondary-rows"}
+    return None
+
+
+# ----------------------------------------------------------------------------- generator
+def _dy(rng, lo, hi, den):
+    return frac(Fraction(rng.randint(lo * den, hi * den), den))
+
+
+def _gen_system(rng, tier):
+    big = tier == "thorough"
+    ns = rng.choice([1, 2, 2, 3, 3] if not big else [1, 2, 2, 3, 3, 4])
+    grids = []
+    for _ in range(ns):
+        dim = rng.choice([0, 1, 1, 2])
+        grids.append({"kind": "sub", "dim": dim, "n": 1 if dim == 0 else rng.randint(1, 3)})
+    subs = list(range(ns))
+    ni = rng.choice([0, 0, 1, 2]) if ns >= 2 else 0
+    pairs = rng.sample(list(itertools.combinations(subs, 2)), min(ni, ns * (ns - 1) // 2))
+    for a, b in pairs:
+        dim = min(1, rng.choice([0, max(0, max(grids[a]["dim"], grids[b]["dim"]) - 1)]))  # dim <= dim_max, else the md-grid does not list it
+        grids.append({"kind": "intf", "dim": dim, "n": 1 if dim == 0 else rng.randint(1, 2), "sides": rng.choice([1, 1, 2]), "pair": [a, b]})
+    ranks = list(range(len(grids)))
+    rng.shuffle(ranks)
+    for g, rk in zip(grids, ranks):
+        g["rank"] = rk
+    intfs = list(range(ns, len(grids)))
+    vars_ = []
+    nv = rng.randint(2, 4)
+    for n in range(nv):
+        gl = subs[:] if rng.random() < 0.6 else rng.sample(subs, rng.randint(1, ns))
+        rng.shuffle(gl)
+        vars_.append({"name": n, "grids": gl})
+    if intfs:
+        for n in range(nv, nv + rng.randint(1, 2)):
+            gl = intfs[:] if rng.random() < 0.6 else rng.sample(intfs, rng.randint(1, len(intfs)))
+            vars_.append({"name": n, "grids": gl})
+    rng.shuffle(vars_)
+    cells = [_cells(g) for g in grids]
+    eqs = []
+    for v in vars_:
+        gl = v["grids"][:]
+        rng.shuffle(gl)
+        groups = [gl]
+        if len(gl) >= 2 and rng.random() < 0.4:
+            c = rng.randint(1, len(gl) - 1)
+            groups = [gl[:c], gl[c:]]
+        for G in groups:
+            co = [u["name"] for u in vars_ if u["name"] != v["name"] and set(G) <= set(u["grids"])]
+            lin = [[u, rng.choice(["1/2", "-1/2", "1", "-1", "1/4", "-1/4"])] for u in co if rng.random() < 0.55]
+            quad = []
+            pool = co + [v["name"]]
+            for _ in range(rng.choice([0, 0, 1, 1, 2])):
+                quad.append([rng.choice(pool), rng.choice(pool), rng.choice(["1/4", "-1/4", "1/2", "-1/2"])])
+            nrows = sum(cells[g] for g in G)
+            nonlocal_ = []
+            for _ in range(rng.choice([0, 1, 1, 2])):
+                u = rng.choice(vars_)
+                g = rng.choice(u["grids"])
+                M = [[rng.choice(["0", "0", "0", "1/2", "-1/2", "1/4", "-1/4", "1"]) for _ in range(cells[g])] for _ in range(nrows)]
+                nonlocal_.append([u["name"], g, M])
+            eqs.append({"grids": G, "diag": v["name"], "dcoef": rng.choice(["4", "5", "6", "8", "-4", "-5", "-6", "3"]),
+                        "lin": lin, "quad": quad, "nonlocal": nonlocal_, "const": [_dy(rng, -4, 4, 4) for _ in range(nrows)]})
+    rng.shuffle(eqs)
+    return {"grids": grids, "vars": vars_, "eqs": eqs}
+
+
+def _gen_state(rng, n):
+    return {"op": "state", "x": [("0" if rng.random() < 0.3 else _dy(rng, -2, 2, 4)) for _ in range(n)]}
+
+
+def _var_items(rng, case, picks):
+    """picks: list of (var name, grids) -> request items in assorted styles."""
+    vg = {v["name"]: v["grids"] for v in case["vars"]}
+    items = []
+    for name, G in picks:
+        if not G:
+            continue
+        G = list(G)
+        rng.shuffle(G)
+        if set(G) == set(vg[name]) and rng.random() < 0.6:
+            items.append([name, None, rng.choice(["str", "md", "atom"])])
+        elif rng.random() < 0.5 or len(G) == 1:
+            items.append([name, G, rng.choice(["md", "atom"])])
+        else:
+            items += [[name, [g], rng.choice(["md", "atom"])] for g in G]
+    rng.shuffle(items)
+    return items
+
+
+def _gen_split(rng, case):
+    eqs = case["eqs"]
+    neq = len(eqs)
+    vg = {v["name"]: v["grids"] for v in case["vars"]}
+    u = rng.random()
+    kind = ("natural-list" if u < 0.3 else "natural-dict" if u < 0.62 else "crossed" if u < 0.72 else
+            "nonsquare" if u < 0.8 else "malformed")
+    sty = lambda: rng.choice(["str", "str", "op"])
+    inverter = rng.choice(["default", "default", "default", "dense", "exact"])
+    base = "natural-list" if kind == "malformed" or (kind != "natural-dict" and rng.random() < 0.5) else "natural-dict"
+    if neq == 1:
+        base = "natural-dict"
+    if base == "natural-list":
+        Q = rng.sample(range(neq), rng.randint(1, neq - 1))
+        step = {"op": "split", "form": "list", "eqs": [[k, sty()] for k in Q]}
+        if rng.random() < 0.15:
+            step["eqs"].append([rng.choice(Q), sty()])
+        picks = [(eqs[k]["diag"], eqs[k]["grids"]) for k in Q]
+    else:
+        sel = []
+        picks = []
+        for k in range(neq):
+            t = rng.random()
+            if t < 0.3:
+                continue
+            G = eqs[k]["grids"]
+            if t < 0.5:
+                chosen = list(G)
+            elif t < 0.57:
+                chosen = []
+            else:
+                chosen = rng.sample(G, rng.randint(1, len(G)))
+            rng.shuffle(chosen)
+            sel.append([k, chosen, sty()])
+            picks.append((eqs[k]["diag"], chosen))
+        if not sel or not any(p[1] for p in picks):
+            k = rng.randrange(neq)
+            sel = [s for s in sel if s[0] != k] + [[k, [eqs[k]["grids"][0]], sty()]]
+            picks = [p for p, s in zip(picks, sel)] if False else [(eqs[s[0]]["diag"], s[1]) for s in sel]
+        rng.shuffle(sel)
+        step = {"op": "split", "form": "dict", "eqs": sel}
+    # merge picks of the same variable (two equations of one variable)
+    merged = {}
+    for name, G in picks:
+        merged.setdefault(name, [])
+        merged[name] += [g for g in G if g not in merged[name]]
+    picks = list(merged.items())
+    if kind == "crossed" and picks:
+        i = rng.randrange(len(picks))
+        name, G = picks[i]
+        others = [n for n in vg if n != name and set(G) <= set(vg[n]) and all(n != p[0] or not (set(G) & set(p[1])) for p in picks)]
+        if others and G:
+            picks[i] = (rng.choice(others), G)
+        else:
+            kind = base
+    step["vars"] = _var_items(rng, case, picks)
+    if kind == "nonsquare":
+        t = rng.random()
+        allunits = [(n, g) for n in vg for g in vg[n]]
+        if t < 0.4 and len(step["vars"]) > 1:
+            step["vars"].pop(rng.randrange(len(step["vars"])))
+        elif t < 0.8:
+            have = {(n, g) for n, G, _ in step["vars"] for g in (G if G is not None else vg[n])}
+            extra = [u_ for u_ in allunits if u_ not in have]
+            if extra:
+                n, g = rng.choice(extra)
+                step["vars"].append([n, [g], "atom"])
+        elif step["form"] == "list" and neq > len(step["eqs"]):
+            step["eqs"].append([rng.choice([k for k in range(neq) if k not in [e[0] for e in step["eqs"]]]), "str"])
+    if kind == "malformed":
+        t = rng.choice(["unknown-eq", "outside-grid", "foreign-grid", "no-eqs", "no-vars", "all-vars", "unknown-var", "all-eqs", "dup-var", "empty-dict"])
+        step["bad"] = t
+        if t == "unknown-eq":
+            step["eqs"].insert(rng.randint(0, len(step["eqs"])), [neq + rng.randint(0, 2), "str"])
+        elif t in ("outside-grid", "foreign-grid"):
+            k = rng.randrange(neq)
+            out = [g for g in range(len(case["grids"])) if g not in eqs[k]["grids"]] if t == "outside-grid" else []
+            g = rng.choice(out) if out else len(case["grids"]) + 1
+            step["form"] = "dict"
+            step["eqs"] = [[k, [g] + rng.sample(eqs[k]["grids"], rng.randint(0, len(eqs[k]["grids"]))), "str"]]
+        elif t == "no-eqs":
+            step["eqs"] = []
+        elif t == "empty-dict":
+            step["form"], step["eqs"] = "dict", []
+        elif t == "no-vars":
+            step["vars"] = []
+        elif t == "all-vars":
+            step["vars"] = [[n, None, rng.choice(["str", "md"])] for n in vg]
+        elif t == "unknown-var":
+            step["vars"] = [[len(vg) + 5, None, "str"]]
+        elif t == "all-eqs":
+            step["form"], step["eqs"] = "list", [[k, sty()] for k in range(neq)]
+        elif t == "dup-var" and step["vars"]:
+            n, G, _ = rng.choice(step["vars"])
+            step["vars"].append([n, G, "atom" if G is not None else "str"])
+    step["inverter"] = inverter
+    step["kind"] = kind
+    return step
+
+
+def gen_case(rng, tier):
+    case = _gen_system(rng, tier)
+    lay = Layout(case)
+    steps = []
+    if rng.random() < 0.12:
+        steps.append({"op": "expand", "x": [_dy(rng, -2, 2, 4) for _ in range(rng.randint(1, 3))]})
+    steps.append(_gen_state(rng, lay.ndof))
+    nsplit = rng.randint(4, 9 if tier == "quick" else 14)
+    np_last = None
+    for _ in range(nsplit):
+        if rng.random() < 0.12:
+            steps.append(_gen_state(rng, lay.ndof))
+        s = _gen_split(rng, case)
+        steps.append(s)
+        cls = classify(case, lay, s)
+        if cls[0] in ("square", "dup"):
+            np_last = len(cls[3])
+        if rng.random() < 0.75:
+            steps.append({"op": "expand", "solve": True})
+        if np_last is not None and rng.random() < 0.35:
+            k = np_last if rng.random() < 0.85 else np_last + rng.choice([-1, 1])
+            steps.append({"op": "expand", "x": [_dy(rng, -2, 2, 4) for _ in range(max(k, 0))]})
+    case["steps"] = steps
+    return case
+
+
+# ----------------------------------------------------------------------------- evidence helpers
+def _admissible_splits(case):
+    lay = Layout(case)
+    out = []
+    for s in case["steps"]:
+        if s["op"] == "split":
+            cls = classify(case, lay, s)
+            if cls[0] == "square":
+                out.append((tuple(sorted(cls[2])), tuple(sorted(cls[4])), s["inverter"]))
+    return out
+
+
+def nontrivial(case):
+    adm = _admissible_splits(case)
+    return len({a[:2] for a in adm}) >= 2 and any(a[2] == "default" for a in adm)
+
+
+def shrink_candidates(case):
+    steps = case["steps"]
+    for i in range(len(steps) - 1, -1, -1):
+        if steps[i]["op"] != "state" or sum(1 for s in steps if s["op"] == "state") > 1:
+            yield dict(case, steps=steps[:i] + steps[i + 1:])
+    for k, e in enumerate(case["eqs"]):
+        for fld in ("nonlocal", "quad", "lin"):
+            if e[fld]:
+                e2 = dict(e, **{fld: e[fld][:-1]})
+                yield dict(case, eqs=case["eqs"][:k] + [e2] + case["eqs"][k + 1:])
+    for i, s in enumerate(steps):
+        if s["op"] == "split" and s["inverter"] != "default":
+            yield dict(case, steps=steps[:i] + [dict(s, inverter="default")] + steps[i + 1:])
+
+
+def stats(cases, impl_outs):
+    kinds, inverters, outcome, forms = {}, {}, {}, {}
+    nsplit = nexp = ill = 0
+    per_inst = []
+    for c, out in zip(cases, impl_outs):
+        if not isinstance(out, list):
+            continue
+        per_inst.append(len({a[:2] for a in _admissible_splits(c)}))
+        for s, o in zip(c["steps"], out):
+            if s["op"] == "split":
+                nsplit += 1
+                kinds[s.get("kind", "?")] = kinds.get(s.get("kind", "?"), 0) + 1
+                inverters[s["inverter"]] = inverters.get(s["inverter"], 0) + 1
+                forms[s["form"]] = forms.get(s["form"], 0) + 1
+                res = o.get("err", "ok")
+                outcome[res] = outcome.get(res, 0) + 1
+                if "_cond" in o and not o["_cond"] < COND_MAX:
+                    ill += 1
+            elif s["op"] == "expand":
+                nexp += 1
+    hist = {}
+    for k in per_inst:
+        hist[str(k)] = hist.get(str(k), 0) + 1
+    return {"splits": nsplit, "expands": nexp, "split_kinds": kinds, "forms": forms, "inverters": inverters, "split_outcomes": outcome,
+            "ill_conditioned_splits_not_value_compared": ill, "distinct_admissible_splits_per_instance": hist,
+            "dofs": {"min": min((Layout(c).ndof for c in cases), default=0), "max": max((Layout(c).ndof for c in cases), default=0)}}
